@@ -20,7 +20,11 @@ EXPLANATION = (
   "caller's options. R2: the records an input row matches are looked up as the statement "
   "documents, `table.lookupRecords(**require)` on the action's own table -- the lookup call gets "
   "the per-row require values as its only filter and no ordering option other than the default "
-  "(row id order), since `first` / `all` mean first / all in that order. Not decided: agreement "
+  "(row id order), since `first` / `all` mean first / all in that order. R3: the record added "
+  "when nothing matches carries the `require` values: a `require` column is left out of the added "
+  "record only when it is a formula column whose metadata (or schema) formula text is non-empty "
+  "-- a data column and an empty column (isFormula with blank formula; its Column object has a "
+  "generated method too, so has_formula() does not tell it apart) are kept. Not decided: agreement "
   "of the adding / updating with the reference semantics (first/all/none selection, returned "
   "ids).")
 
@@ -32,6 +36,7 @@ def check(run, repo, tier):
   w = World(repo)
   r1_validate_before_mutate(run, w)
   r2_documented_lookup(run, w)
+  r3_added_record_has_require(run, w)
 
 
 def _option_vars(fn, p_opts):
@@ -384,6 +389,121 @@ def r2_documented_lookup(run, w):
              "have the row's values", ok and tbl_ok, fi=fn.fi, node=c)
 
 
+# ------------------------------------------------------------------------------------------ R3
+def r3_added_record_has_require(run, w):
+  R3 = run.rule("C28-R3", "the record added for an unmatched row carries the `require` values of "
+                "every column that can hold data (data columns and still-empty columns)", floor=1)
+  fn = H.inlined_fn(w, "useractions.UserActions.BulkAddOrUpdateRecord")
+  cfg = fn.cfg
+  du = DefUse(fn)
+  rd = H.ReachDefs(fn, du)
+  ps = fn.fi.params()
+  p_table, p_req = ps[1], ps[2]
+  def over_require(it):
+    it = H.expand(fn, it)
+    if isinstance(it, ast.Call) and isinstance(it.func, ast.Attribute) and \
+        it.func.attr in ("keys", "items") and not it.args:
+      return H.is_var(fn, it.func.value, p_req) and it.func.attr
+    if isinstance(it, ast.Call) and dotted(it.func) in ("sorted", "list", "set", "tuple") and \
+        len(it.args) == 1:
+      return over_require(it.args[0])
+    return "keys" if H.is_var(fn, it, p_req) else False
+  # collections of `require` keys: comprehensions (or accumulating loops) over require whose
+  # element is the key itself
+  comps = []
+  for x in walk_no_nested(fn.node):
+    if isinstance(x, (ast.SetComp, ast.ListComp, ast.GeneratorExp)) and len(x.generators) == 1:
+      comps.append((x, None))
+  for nm_ in list(du.muts):
+    for m in cfg.nodes:
+      if m.stmt is None or m.id in du.muts[nm_]:
+        continue
+      if any(isinstance(y, ast.Name) and y.id == nm_ and isinstance(y.ctx, ast.Load)
+             for e_ in m.exprs if e_ is not None for y in ast.walk(e_)):
+        c2 = H.loop_as_comprehension(fn, du, rd, nm_, m.id)
+        if c2 is not None and not isinstance(c2, ast.DictComp):
+          comps.append((c2, nm_))
+          break
+  keysets = []
+  for (c, acc) in comps:
+    g = c.generators[0]
+    how = over_require(g.iter)
+    if not how:
+      continue
+    kvar = g.target.elts[0] if how == "items" and isinstance(g.target, ast.Tuple) else g.target
+    if not (isinstance(kvar, ast.Name) and text(c.elt) == kvar.id):
+      continue
+    keysets.append((c, kvar.id, acc))
+  # ... that feed the values of BulkAddRecord
+  adds = [c for (n, c, nm) in fn.calls() if nm == "self.BulkAddRecord"]
+  if not adds:
+    raise AnalysisError("BulkAddOrUpdateRecord: BulkAddRecord call not found")
+  def feeds_add(c, acc):
+    pred = (lambda x: x is c) if acc is None else \
+        (lambda x: isinstance(x, ast.Name) and x.id == acc)
+    return any(du.flows_from(pred, a) for call in adds
+               for a in list(call.args) + [k.value for k in call.keywords])
+  keysets = [(c, k, acc) for (c, k, acc) in keysets if feeds_add(c, acc)]
+  if not keysets:
+    raise AnalysisError("BulkAddOrUpdateRecord: the set of `require` columns written to added "
+                        "records not recognised")
+  def column_fact(kvar, empty):
+    """Truth of an atom about the column named by loop variable kvar, for a data column
+    (empty=False) or a still-empty column (empty=True: isFormula set, formula text blank)."""
+    def is_key(e):
+      return isinstance(e, ast.Name) and e.id == kvar
+    def col_obj(e):
+      e = H.expand(fn, e, pure_only=False, stop={kvar})
+      if isinstance(e, ast.Call) and isinstance(e.func, ast.Attribute) and \
+          e.func.attr == "get_column" and len(e.args) == 1 and is_key(e.args[0]) and \
+          fn.type_of(e.func.value) == T.TABLE:
+        return True
+      return isinstance(e, ast.Subscript) and is_key(e.slice) and \
+          isinstance(e.value, ast.Attribute) and e.value.attr == "all_columns"
+    def col_rec(e):
+      e = H.expand(fn, e, pure_only=False, stop={kvar})
+      if isinstance(e, ast.Call) and isinstance(e.func, ast.Attribute) and \
+          e.func.attr == "get_column_rec" and len(e.args) == 2 and is_key(e.args[1]) and \
+          H.is_var(fn, e.args[0], p_table):
+        return True
+      return isinstance(e, ast.Subscript) and is_key(e.slice) and \
+          isinstance(e.value, ast.Attribute) and e.value.attr == "columns" and \
+          fn.type_of(e.value) == "SchemaColumns"
+    def val(e):
+      if isinstance(e, ast.Call) and isinstance(e.func, ast.Attribute) and not e.args and \
+          col_obj(e.func.value):
+        if e.func.attr == "is_formula":
+          return empty
+        if e.func.attr == "has_formula":
+          # a method exists for every isFormula column, also with a blank formula (gencode
+          # _make_field), and never decides for a data column (default formulas)
+          return True if empty else None
+      if isinstance(e, ast.Attribute) and col_rec(e.value):
+        if e.attr == "formula":
+          return False if empty else None
+        if e.attr == "isFormula":
+          return empty
+      if isinstance(e, ast.Name):
+        v = H.alias_value(fn, e.id, pure_only=False)
+        if v is not None:
+          return H.eval3(v, val)
+      return None
+    return val
+  for (c, kvar, acc) in keysets:
+    tests = c.generators[0].ifs
+    for label, empty in (("a data column", False), ("a still-empty column", True)):
+      vals = [H.eval3(t, column_fact(kvar, empty)) for t in tests]
+      if any(v is None for v in vals):
+        raise AnalysisError("BulkAddOrUpdateRecord: cannot tell whether %s named in `require` "
+                            "passes the filter %s" % (label, short(tests[vals.index(None)], 80)))
+      run.ob(R3, fn.qualname, "%s named in require is written to the added record"
+             % label, "the added record satisfies `require` (else the same upsert adds another "
+             "record next time): only formula columns with a non-empty formula are left out",
+             all(vals), fi=fn.fi, node=c if acc is None else None,
+             witness=None if all(vals) else "dropped by `%s`"
+             % short(tests[[bool(v) for v in vals].index(False)], 90))
+
+
 U = "sandbox/grist/useractions.py"
 VARIANTS = [
   ("on-many-not-validated", U,
@@ -425,6 +545,12 @@ VARIANTS = [
    "      records = list(table.lookup_records(**current_require))",
    "      records = list(self._engine.tables['_grist_Tables'].lookup_records(**current_require))",
    "C28-R2"),
+  ("empty-columns-left-out-of-added-records", U,
+   "          self._engine.docmodel.get_column_rec(table_id, key).formula\n      )\n    }",
+   "          table.get_column(key).has_formula()\n      )\n    }", "C28-R3"),
+  ("all-formula-flagged-columns-left-out-of-added-records", U,
+   "          table.get_column(key).is_formula() and\n          # Check that there actually is a formula and this isn't just an empty column\n          self._engine.docmodel.get_column_rec(table_id, key).formula\n      )",
+   "          table.get_column(key).is_formula()\n      )", "C28-R3"),
   ("on-many-last-unvalidated", U,
    "          if on_many == \"first\":\n            records = records[:1]\n          elif on_many == \"none\":",
    "          if on_many == \"first\":\n            records = records[:1]\n          elif on_many == \"last\":\n            records = records[-1:]\n          elif on_many == \"none\":",
